@@ -841,6 +841,12 @@ def dump_one(f: TextIO, data: IOData):
         else:
             angmom_kinds[angmom] = kind
 
+    # Pure h functions are (unofficially) activated by the [9G] tag, together with pure g functions.
+    if angmom_kinds.get(5) == "p" and angmom_kinds.setdefault(4, "p") != "p":
+        raise DumpError(
+            "Molden format does not support pure h functions combined with Cartesian g functions.",
+            f,
+        )
     # Fill in some defaults (Cartesian) for angmom kinds if needed.
     angmom_kinds.setdefault(2, "c")
     angmom_kinds.setdefault(3, "c")
